@@ -1,0 +1,116 @@
+//go:build verif
+
+// Contracts for govc (see /verif/DESIGN.md). Comment-only file: no executable code.
+
+package codec
+
+// ---------------------------------------------------------------------------
+// C23: RLP byte layer (the reflective value layer of codec.go is out of reach)
+// ---------------------------------------------------------------------------
+
+//@ property C23
+//@ spec outAt(i) = ghost(w_arr)[i]
+//@ spec outHas(base, b) = forall i int :: {ghost(w_arr)[base + i]} 0 <= i && i < len(b) ==> ghost(w_arr)[base + i] == b[i]
+//@ spec outKeeps(n0) = forall j int :: {ghost(w_arr)[j]} 0 <= j && j < n0 ==> ghost(w_arr)[j] == old(ghost(w_arr))[j]
+//@ spec outSane() = 0 <= ghost(w_len) && ghost(w_len) < 0x1000000000000000
+
+//@ func sizeToBytes(s) (bs)
+//@   arith bv
+//@   requires s >= 0
+//@   ensures 1 <= len(bs) && len(bs) <= 8 && dec_u64(arr(bs), off(bs), len(bs)) == uint64(s) && (len(bs) == 1 || bs[0] != 0) && fresh(bs)
+
+//@ func bytesToSize(bs) (n, err)
+//@   arith bv
+//@   pure
+//@   ensures err == nil ==> n >= 0 && len(bs) <= 8 && (len(bs) > 0 ==> uint64(n) == dec_u64(arr(bs), off(bs), len(bs)))
+
+//@ func (w *rlpWriter) writeAll(b) (err)
+//@   arith bv
+//@   pure
+//@   requires w != nil && w.writer != nil && outSane() && len(b) < 0x1000000000000000
+//@   ensures [appended] err == nil ==> ghost(w_len) == old(ghost(w_len)) + len(b) && outHas(old(ghost(w_len)), b)
+//@   ensures [prefix] outKeeps(old(ghost(w_len))) && ghost(w_len) >= old(ghost(w_len)) && ghost(w_len) <= old(ghost(w_len)) + len(b)
+//@   loop 0: invariant 0 <= written && written <= len(b) && ghost(w_len) == old(ghost(w_len)) + written
+//@   loop 0: invariant forall i int :: {ghost(w_arr)[old(ghost(w_len)) + i]} 0 <= i && i < written ==> ghost(w_arr)[old(ghost(w_len)) + i] == b[i]
+//@   loop 0: invariant outKeeps(old(ghost(w_len)))
+
+// writeBytes emits exactly the RLP string encoding: single small byte as itself, short strings with
+// tag 0x80+len, long strings with tag 0xB7+k followed by the minimal big-endian length (k bytes),
+// nil as F8 00.
+//@ func (w *rlpWriter) writeBytes(b) (err)
+//@   arith bv
+//@   pure
+//@   requires w != nil && w.writer != nil && outSane() && len(b) < 0x1000000000000000
+//@   requires len(nullSequence) == 2 && nullSequence[0] == 0xf8 && nullSequence[1] == 0
+//@   ensures [prefix] outKeeps(old(ghost(w_len)))
+//@   ensures [nil] err == nil && b == nil ==> ghost(w_len) == old(ghost(w_len)) + 2 && outAt(old(ghost(w_len))) == 0xf8 && outAt(old(ghost(w_len)) + 1) == 0
+//@   ensures [empty] err == nil && b != nil && len(b) == 0 ==> ghost(w_len) == old(ghost(w_len)) + 1 && outAt(old(ghost(w_len))) == 0x80
+//@   ensures [single] err == nil && len(b) == 1 && b[0] < 0x80 ==> ghost(w_len) == old(ghost(w_len)) + 1 && outAt(old(ghost(w_len))) == b[0]
+//@   ensures [short] err == nil && 1 <= len(b) && len(b) <= 55 && !(len(b) == 1 && b[0] < 0x80) ==> ghost(w_len) == old(ghost(w_len)) + 1 + len(b) && outAt(old(ghost(w_len))) == byte(0x80 + len(b)) && outHas(old(ghost(w_len)) + 1, b)
+//@   ensures [long] err == nil && len(b) > 55 ==> outAt(old(ghost(w_len))) >= 0xb8 && outAt(old(ghost(w_len))) <= 0xbf && ghost(w_len) == old(ghost(w_len)) + 1 + int(outAt(old(ghost(w_len))) - 0xb7) + len(b)
+//@   ensures [longsize] err == nil && len(b) > 55 ==> dec_u64(ghost(w_arr), old(ghost(w_len)) + 1, int(outAt(old(ghost(w_len))) - 0xb7)) == uint64(len(b)) && (outAt(old(ghost(w_len))) == 0xb8 || outAt(old(ghost(w_len)) + 1) != 0)
+//@   ensures [longdata] err == nil && len(b) > 55 ==> outHas(old(ghost(w_len)) + 1 + int(outAt(old(ghost(w_len))) - 0xb7), b)
+
+// list header: tag 0xC0+len for payloads up to 55 bytes, 0xF7+k and the minimal length otherwise
+//@ func (w *rlpWriter) writeList(b) (err)
+//@   arith bv
+//@   pure
+//@   requires w != nil && w.writer != nil && outSane() && len(b) < 0x1000000000000000
+//@   ensures [prefix] outKeeps(old(ghost(w_len)))
+//@   ensures [short] err == nil && len(b) <= 55 ==> ghost(w_len) == old(ghost(w_len)) + 1 + len(b) && outAt(old(ghost(w_len))) == byte(0xc0 + len(b)) && outHas(old(ghost(w_len)) + 1, b)
+//@   ensures [long] err == nil && len(b) > 55 ==> outAt(old(ghost(w_len))) >= 0xf8 && ghost(w_len) == old(ghost(w_len)) + 1 + int(outAt(old(ghost(w_len))) - 0xf7) + len(b)
+//@   ensures [longsize] err == nil && len(b) > 55 ==> dec_u64(ghost(w_arr), old(ghost(w_len)) + 1, int(outAt(old(ghost(w_len))) - 0xf7)) == uint64(len(b)) && (outAt(old(ghost(w_len))) == 0xf8 || outAt(old(ghost(w_len)) + 1) != 0)
+//@   ensures [longdata] err == nil && len(b) > 55 ==> outHas(old(ghost(w_len)) + 1 + int(outAt(old(ghost(w_len))) - 0xf7), b)
+
+// reader side: no run-time panic for any input bytes and any limits
+//@ spec rdOK(r) = r != nil && r.reader != nil && r.maxSB >= 0
+//@ func (r *rlpReader) readAll(buffer) (err)
+//@   arith bv
+//@   requires rdOK(r)
+//@   modifies buffer[*]
+//@ func (r *rlpReader) readSize(buffer) (n, err)
+//@   arith bv
+//@   requires rdOK(r)
+//@   modifies buffer[*]
+//@   ensures err == nil ==> n >= 0
+//@ func (r *rlpReader) readBytes() (bs, err)
+//@   arith bv
+//@   requires rdOK(r)
+//@   modifies *
+//@   ensures [bounded] err == nil ==> len(bs) <= 55 || len(bs) <= r.maxSB
+//@ func (r *rlpReader) readMore(org, size) (bs, err)
+//@   arith bv
+//@   requires rdOK(r) && len(org) <= 9
+//@   modifies *
+//@   ensures [bounded] err == nil ==> size >= 0 && len(bs) == len(org) + size && len(bs) <= r.maxSB
+//@ func (r *rlpReader) ReadRaw() (bs, err)
+//@   arith bv
+//@   requires rdOK(r)
+//@   modifies *
+//@ func (r *rlpReader) readList() (rd, err)
+//@   arith bv
+//@   requires rdOK(r)
+//@   modifies *
+//@ func (r *rlpReader) skipOne() (err)
+//@   arith bv
+//@   requires rdOK(r)
+//@   modifies *
+//@ func (l *limitReader) Read(p) (n, err)
+//@   arith bv
+//@   requires l != nil && l.reader != nil && l.offset >= 0 && l.offset <= l.limit
+//@   modifies l.offset, p[*]
+//@   ensures [within] 0 <= n && n <= len(p) && l.offset >= 0 && l.offset <= l.limit && l.offset == old(l.offset) + int64(n)
+
+// integer targets: a decoded integer is stored only if it fits the destination kind
+//@ spec kindOf(v) = uint64(rv_kind(uint64(v.flag)))
+//@ func (r *rlpReader) readIntValue(v) (err)
+//@   arith bv
+//@   requires rdOK(r)
+//@   modifies *
+//@   callpre SetInt: (kindOf(v) == 3 ==> -128 <= x && x <= 127) && (kindOf(v) == 4 ==> -32768 <= x && x <= 32767) && (kindOf(v) == 5 ==> -2147483648 <= x && x <= 2147483647)
+//@ func (r *rlpReader) readUintValue(v) (err)
+//@   arith bv
+//@   requires rdOK(r)
+//@   modifies *
+//@   callpre SetUint: (kindOf(v) == 8 ==> x <= 255) && (kindOf(v) == 9 ==> x <= 65535) && (kindOf(v) == 10 ==> x <= 4294967295)
+//@   callpre SetBool: kindOf(v) == 1
